@@ -12,18 +12,27 @@ export GOFLAGS=-mod=mod GOPROXY=off GOSUMDB=off GOTOOLCHAIN=local
 export PATH="$PATH:/usr/local/go/bin"
 BIN="$VERIF_DIR/.build/bin"
 mkdir -p "$BIN"
+# VERIF_REPO: evaluate another tree than /repo (used only by scripts/eval_isolated.sh to run a check against a
+# scratch worktree that carries a seeded change, so that /repo itself is never touched by an evaluation).
+REPO="${VERIF_REPO:-/repo}"
+MODFILE=()
 exec 9>"$VERIF_DIR/.build/lock"
 flock 9
-cp /repo/go.sum "$VERIF_DIR/harness/go.sum.repo" 2>/dev/null
+cp "$REPO/go.sum" "$VERIF_DIR/harness/go.sum.repo" 2>/dev/null
 cat "$VERIF_DIR/harness/go.sum.repo" "$VERIF_DIR/harness/go.sum.extra" 2>/dev/null | sort -u > "$VERIF_DIR/harness/go.sum"
 rm -f "$VERIF_DIR/harness/go.sum.repo"
+if [ "$REPO" != /repo ]; then
+  sed "s#=> /repo\$#=> $REPO#" "$VERIF_DIR/harness/go.mod" > "$VERIF_DIR/.build/harness.mod"
+  cp "$VERIF_DIR/harness/go.sum" "$VERIF_DIR/.build/harness.sum"
+  MODFILE=(-modfile="$VERIF_DIR/.build/harness.mod")
+fi
 for c in dcat dgrep dmap dtail dtailhealth; do
-  (cd /repo && go build -tags verif -o "$BIN/$c" "./cmd/$c") || exit 1
+  (cd "$REPO" && go build -tags verif -o "$BIN/$c" "./cmd/$c") || exit 1
 done
-(cd "$VERIF_DIR/harness" && go build -tags verif -o "$BIN/vcheck" ./cmd/vcheck) || exit 1
+(cd "$VERIF_DIR/harness" && go build "${MODFILE[@]}" -tags verif -o "$BIN/vcheck" ./cmd/vcheck) || exit 1
 WORKERS="server c03 c04 mapr c08 c10 c16 c18"
 for w in $WORKERS; do
-  if ! (cd "$VERIF_DIR/harness" && go build -tags "verif w_$w" -o "$BIN/vcheck-w-$w" ./cmd/vcheck) 2>"$BIN/vcheck-w-$w.builderr"; then
+  if ! (cd "$VERIF_DIR/harness" && go build "${MODFILE[@]}" -tags "verif w_$w" -o "$BIN/vcheck-w-$w" ./cmd/vcheck) 2>"$BIN/vcheck-w-$w.builderr"; then
     echo "WARNING: worker $w does not build against the current tree (its in-process tier will be skipped):"
     head -5 "$BIN/vcheck-w-$w.builderr"
     rm -f "$BIN/vcheck-w-$w"
@@ -33,10 +42,10 @@ for w in $WORKERS; do
 done
 if [ "${1:-}" = "race" ]; then
   for c in dcat dgrep dmap dtail; do
-    (cd /repo && go build -tags verif -race -o "$BIN/$c-race" "./cmd/$c") || exit 1
+    (cd "$REPO" && go build -tags verif -race -o "$BIN/$c-race" "./cmd/$c") || exit 1
   done
   for w in server mapr; do
-    (cd "$VERIF_DIR/harness" && go build -tags "verif w_$w" -race -o "$BIN/vcheck-w-$w-race" ./cmd/vcheck) 2>/dev/null || rm -f "$BIN/vcheck-w-$w-race"
+    (cd "$VERIF_DIR/harness" && go build "${MODFILE[@]}" -tags "verif w_$w" -race -o "$BIN/vcheck-w-$w-race" ./cmd/vcheck) 2>/dev/null || rm -f "$BIN/vcheck-w-$w-race"
   done
 fi
 exit 0
